@@ -65,6 +65,7 @@ import (
 var traceUnwind = os.Getenv("GOSYM_TRACE") != ""
 var unwindCount int
 var redirects = map[string]string{}
+var redirectPkg *ssa.Package
 var callDepth int
 var debugStacks = os.Getenv("GOSYM_DEBUG") != ""
 var firstPanicStack []byte
@@ -693,7 +694,11 @@ func callSSA(i *interpreter, caller *frame, callpos token.Pos, fn *ssa.Function,
 	}
 	if m.top && len(redirects) > 0 && !lenientInit {
 		if to, ok := redirects[m.short]; ok && fn.Pkg != nil {
-			if target := fn.Pkg.Func(to); target != nil && target != fn {
+			target := fn.Pkg.Func(to)
+			if target == nil && redirectPkg != nil {
+				target = redirectPkg.Func(to) // a stub defined in the harness package for a callee of another package
+			}
+			if target != nil && target != fn {
 				return callSSA(i, caller, callpos, target, args, nil)
 			}
 		}
